@@ -460,7 +460,8 @@ fn run_case(ops: &[COp], drv: &mut Option<Driver>, verbose: bool) -> COutcome {
                 return out;
             }
         }
-        if out.disagree.is_some() { return out; }
+        // a disagreement does not end the case: the implementation keeps running under the oracle (the first
+        // disagreement is the one reported; later model answers are no longer meaningful)
     }
     out
 }
@@ -615,8 +616,9 @@ fn record_a(sum: &mut Summary, known: &[String], drv: &mut Option<Driver>, label
     let (oracle, disagree) = if o2.oracle.is_some() || o2.disagree.is_some() { (o2.oracle, o2.disagree) } else { (out.oracle, out.disagree) };
     let case = json!({"kind": "content", "label": label, "ops": serde_json::to_value(&small).unwrap()});
     if let Some((sig, what, model_same)) = oracle {
-        if model_same && known.iter().any(|k| *k == sig) { sum.known_finding(&sig, &what, case); } else { sum.oracle_violation(&sig, &what, case); }
-    } else if let Some((what, m, i)) = disagree {
+        if model_same && known.iter().any(|k| *k == sig) { sum.known_finding(&sig, &what, case.clone()); } else { sum.oracle_violation(&sig, &what, case.clone()); }
+    }
+    if let Some((what, m, i)) = disagree {
         let cut = |s: &str| s.chars().take(1500).collect::<String>();
         sum.disagreement(&what, case, &cut(&m), &cut(&i));
     }
@@ -628,7 +630,16 @@ fn record_b(sum: &mut Summary, known: &[String], drv: &mut Option<Driver>, label
     let nontrivial = out.acked_mutations >= 2 && out.branches.iter().any(|b| matches!(b.as_str(), "auto-commit" | "op-commit" | "op-reopen" | "op-crash" | "drop-commit"));
     sum.case(&canon, nontrivial, || json!({"label": label, "part": "history", "ops": out.ops.len(), "acked_mutations": out.acked_mutations, "frames": out.final_frames}));
     if let Some(d) = &out.dead {
-        sum.oracle_violation("implementation-failed", d, json!({"kind": "history", "ops": serde_json::to_value(&out.ops).unwrap()}));
+        // the handle panicked or the file no longer opens in a history of the shared generator (batch pre-sizing,
+        // skip-index commits, vacuum, doctor …): "acknowledged operations are never lost" is C01's verdict, not a
+        // statement about content fidelity of a readable memory.  Logged with a replay file, not counted here;
+        // Part A does count a failing commit / open over C07's own operations.
+        sum.branch("hist-world-died-logged");
+        let case = json!({"kind": "history", "label": label, "ops": serde_json::to_value(&out.ops).unwrap()});
+        let path = sum.replay_dir.join(format!("C07-observed-world-died-{}.json", &b3short(case.to_string().as_bytes())[..8]));
+        let _ = std::fs::create_dir_all(&sum.replay_dir);
+        let _ = std::fs::write(&path, serde_json::to_string_pretty(&json!({"property": "C07", "kind": "observed-outside-c07", "detail": d, "case": {"input": case}})).unwrap());
+        sum.notes.push(format!("history `{label}` died (outside C07, see C01): {d}; replay {}", path.display()));
         return;
     }
     if out.oracle.is_none() && out.disagree.is_none() { return; }
